@@ -174,6 +174,15 @@ impl<'a> LspServer<'a> {
             }
             Err(req) => req,
         };
+
+        // Every request must get a response, so tell the client that we don't
+        // implement the method.
+        let response = lsp_server::Response::new_err(
+            req_id,
+            lsp_server::ErrorCode::MethodNotFound as i32,
+            format!("Method not found: {}", _request.method),
+        );
+        self.sender.send(Message::Response(response)).unwrap();
         ""
     }
 
